@@ -274,7 +274,8 @@ def matches_known(entry: dict, failure: dict) -> bool:
     if pred:
         from vlib import predicates
 
-        return bool(getattr(predicates, pred)(failure["case"], failure.get("message", ""), entry.get("params", {})))
+        # the predicate sees "<clause> | <message>"
+        return bool(getattr(predicates, pred)(failure["case"], f'{failure["clause"]} | {failure.get("message", "")}', entry.get("params", {})))
     return True
 
 
